@@ -1,0 +1,22 @@
+//go:build verif
+
+package proxy
+
+// Verification hook for property C28 (tab list): re-exports the internal tablist package
+// for the external verification harness. No logic.
+
+import (
+	internaltablist "go.minekube.com/gate/pkg/internal/tablist"
+)
+
+type (
+	VerifC28InternalTabList = internaltablist.InternalTabList
+	VerifC28Viewer          = internaltablist.Viewer
+	VerifC28Entry           = internaltablist.Entry
+	VerifC28EntryAttributes = internaltablist.EntryAttributes
+)
+
+// VerifC28NewTabList forwards to tablist.New.
+func VerifC28NewTabList(v VerifC28Viewer) VerifC28InternalTabList {
+	return internaltablist.New(v)
+}
